@@ -1199,7 +1199,7 @@ def Fq : Fn ℚ where
   exp := fun x => 1 + x
   log := fun x => x - 1
   log10 := fun x => x - 1
-  pow := fun x _ => x
+  pow := fun x y => if y = 2 then x * x else x
   round0 := id
   round2 := id
   round3 := id
